@@ -2,6 +2,22 @@ package main
 
 // Checks is the registry: which harness entry points decide which property, under which bounds.
 var Checks = []Check{
+	{ID: "C16", Entries: []Entry{
+		{Pkg: "net/edf", Func: "VerifC16Decode", Params: map[string]int64{"maxbytes": 5}, Thorough: map[string]int64{"maxbytes": 7},
+			What: "every byte string of length 0..N into the real edf.Decode: value or error, allocation in proportion, re-encode -> decode agrees"},
+		{Pkg: "net/edf", Func: "VerifC16Decode", Params: map[string]int64{"maxbytes": 10, "arrayprefix": 1}, Thorough: map[string]int64{"maxbytes": 11, "arrayprefix": 1},
+			What: "inputs starting with an array type descriptor (declared length from a boundary set, element type and data symbolic)"},
+		{Pkg: "net/proto", Func: "VerifC16Frames", Params: map[string]int64{"maxbytes": 10}, Thorough: map[string]int64{"maxbytes": 16},
+			What: "arbitrary bytes (symbolic content, length 0..N) into the real serve/read/handleRecvQueue: no panic escapes, no hang, deliveries <= frames, allocation in proportion"},
+		{Pkg: "net/proto", Func: "VerifC16Frames", Params: map[string]int64{"maxbytes": 12, "magic": 1}, Thorough: map[string]int64{"maxbytes": 20, "magic": 1},
+			What: "same with a well-formed magic/version prefix so that every message-type branch of the parser is reached"},
+	}},
+	{ID: "C12", Entries: []Entry{
+		{Pkg: "net/proto", Func: "VerifC12Pipeline", Shards: 8, What: "one message per kind (SendPID/ProcessID/Alias, CallPID/ProcessID/Alias, SendResponse, SendExit) with symbolic ids, priority, reference and payload through the real sender method, then (with a second frame behind it) through the real serve/read/handleRecvQueue and real EDF into a fake core: exactly once, right addressee, true sender, equal payload"},
+		{Pkg: "net/proto", Func: "VerifC12Segmentation", What: "two concrete frames cut into <=3 TCP segments at every pair of positions: read/serve reassemble them"},
+		{Pkg: "net/proto", Func: "VerifC12SizeLimit", What: "peer_maxmessagesize at the sender and node_maxmessagesize at the receiver vs frame length (symbolic payload bytes)"},
+		{Pkg: "net/proto", Func: "VerifC12Important", Params: map[string]int64{"havoc": 1}, What: "important delivery: acknowledgement iff flag and node support, with the request's reference and the remote result; pooled buffers are arbitrary after release (havoc)"},
+	}},
 	{ID: "C13", Entries: []Entry{
 		{Pkg: "net/proto", Func: "VerifC13SenderLink", Params: map[string]int64{"maxpool": 4, "resize": 1}, Thorough: map[string]int64{"maxpool": 8},
 			What: "real SendPID/send twice for symbolic 64-bit from/to ids over a pool of 1..N sink links (optionally grown in between): same link, same order byte"},
